@@ -302,7 +302,15 @@ def decide_all(obls, tier, workers=16, log=None, models=True, on_sat=None, stop_
         batch_secs = sum(ex.map(do_chunk, chunks))
     # pass 2: everything not 'unsat' goes to the portfolio individually ('sat' first, to get a model from a fresh run)
     todo = [o for o in obls if o["verdict"] != "unsat" and (models or o["verdict"] != "sat")]
-    todo.sort(key=lambda o: 0 if o["verdict"] == "sat" else 1)
+    # 'sat' first (models are cheap to get); then round-robin over the cases so that every case is looked at early
+    rank = {}
+    for o in todo:
+        rank[id(o)] = sum(1 for _ in ())  # placeholder
+    seen = {}
+    for o in todo:
+        seen[o["case"]] = seen.get(o["case"], 0) + 1
+        rank[id(o)] = seen[o["case"]]
+    todo.sort(key=lambda o: (0 if o["verdict"] == "sat" else 1, rank[id(o)]))
     confirmed = [0]
     skipped = [0]
 
@@ -364,6 +372,11 @@ def decide_all(obls, tier, workers=16, log=None, models=True, on_sat=None, stop_
             o["solver"] = None
             o.pop("reproduced", None)
             o.pop("replay_out", None)
+        if confirmed[0] >= 1 and o["verdict"] != "sat":
+            # a violation is already confirmed (the run is a VIOLATION whatever this obligation is): no long solver run
+            o["verdict"] = "skipped"
+            skipped[0] += 1
+            return
         if o["verdict"] == "sat":
             ex = margin_extra(o)
             if ex:
